@@ -406,6 +406,14 @@ func (m *locker) WithContext(src context.Context, name string) (context.Context,
 		select {
 		case <-src.Done():
 			m.removegate(g, name)
+			m.mu.RLock()
+			if m.gates != nil { // we may have consumed a wake-up that was meant for any waiter: pass it on
+				select {
+				case g.ch <- struct{}{}:
+				default:
+				}
+			}
+			m.mu.RUnlock()
 			return nil, nil, src.Err()
 		case <-g.ch:
 		case <-timeout:
